@@ -2,6 +2,7 @@ import ComposeVerif.Lemmas.FanoutProgress
 import ComposeVerif.Lemmas.Interleave
 import ComposeVerif.Gen.Globals
 import ComposeVerif.Neg.C19
+import ComposeVerif.Lemmas.AuditCmd  -- so that `lake build Props.C19` also builds the audit command used by `check`
 /-!
 # C19 — the library is safe to use from concurrent goroutines
 
